@@ -10,7 +10,7 @@ Five families of cells ("what"):
   variance-floor  dist.variance / dist.stddev real and >= settings.min_variance.value(dtype) (default and configured), including
                   test point == training point with tiny noise; confidence_region ordered.
   noise-floor     noise added by every Gaussian-family likelihood over a raw-value lattice >= lower bound of its constraint,
-                  >= settings.min_fixed_noise for fixed noise given to the constructor.
+                  >= settings.min_fixed_noise for fixed noise given to the constructor (also the one behind get_fantasy_likelihood).
 
 The oracle uses only torch.linalg.eigvalsh on the dense float64 matrix that the public API returns.
 """
@@ -42,7 +42,7 @@ ASSUMPTIONS = ["torch.linalg.eigvalsh (LAPACK, float64) is trusted; its error n*
                "max(lambda_max(C), lambda_max(prior at the same points))",
                "kernels outside their documented domain (Cosine d>1, Cylindrical outside the unit ball, Hamming on non one-hot inputs) "
                "are not enumerated; PSD for ALL real inputs is a theorem per kernel, only the lattice is decided",
-               "min_fixed_noise is enforced for noise given to the FixedNoiseGaussianLikelihood constructor (the documented rounding); "
+               "min_fixed_noise is enforced for noise given to the FixedNoiseGaussianLikelihood constructor (the documented rounding), including the likelihood the library constructs for a fantasy model from the supplied fantasy noise; "
                "values written later through the setter / given at call time are only counted (notes)"]
 
 EPS = torch.finfo(F64).eps
@@ -789,7 +789,7 @@ def noise_cells(tier):
     for kind in ("gaussian", "fixed-learn", "hetero"):
         for con, raw, n in itertools.product(CONSTRAINTS, RAWS, [1, 3]):
             out.append({"what": "noise-floor", "kind": kind, "constraint": con, "raw": raw, "n": n})
-    for fx, n, route in itertools.product(FIXED, [1, 3], ["ctor", "setter", "calltime"]):
+    for fx, n, route in itertools.product(FIXED, [1, 3], ["ctor", "setter", "calltime", "fantasy"]):
         out.append({"what": "noise-floor", "kind": "fixed", "fixed": fx, "n": n, "route": route})
     for rank, glob, task, con, raw, raw_task in itertools.product([0, 1, 2], [True, False], [True, False], ["default", "gt1e-2"], RAWS, [0.0, -1e3]):
         if not (glob or task) or (rank > 0 and not task):
@@ -890,14 +890,20 @@ def run_noise(cell, seed, fails, feats):
                         lik = FixedNoiseGaussianLikelihood(noise=torch.full((n,), 0.02, dtype=F64))
                         lik.noise = vals
                         kw = {}
+                    elif route == "fantasy":
+                        # the likelihood of a fantasy model: a NEW FixedNoiseGaussianLikelihood built by the library from the stored noise
+                        # and the noise supplied for the fantasy observations (wave 13: the supplied part was no longer rounded up)
+                        lik = FixedNoiseGaussianLikelihood(noise=torch.full((n,), 0.02, dtype=F64)).get_fantasy_likelihood(noise=vals)
+                        dist = MultivariateNormal(util.randn(g, 2 * n), util.spd(g, 2 * n))
+                        kw = {}
                     else:
                         lik = FixedNoiseGaussianLikelihood(noise=torch.full((n,), 0.02, dtype=F64))
                         kw = {"noise": vals}
                 lik.eval()
                 added, cmax = added_noise(lik, dist, **kw)
                 ops += 1
-                if route == "ctor":
-                    check_floor(fails, "noise-floor", added, mf, cmax, f"fixed noise {vals.tolist()} given to the constructor; added={added.tolist()}")
+                if route in ("ctor", "fantasy"):
+                    check_floor(fails, "noise-floor", added, mf, cmax, f"fixed noise {vals.tolist()} given to the constructor ({route}); added={added.tolist()}")
                     if float(lik.noise.min()) < mf:
                         fails.add("noise-param", f"fixed noise below settings.min_fixed_noise err={mf - float(lik.noise.min()):.3e}", f"noise={lik.noise.tolist()}")
                 else:
